@@ -17,6 +17,7 @@ import (
 	"io"
 	"strings"
 	"sync"
+	"time"
 
 	"storj.io/drpc"
 	"storj.io/drpc/drpcerr"
@@ -1102,6 +1103,128 @@ func recvFlushParked(id string, how string, cause string, raw bool) runner.Resul
 	return res
 }
 
+// sharedWriter: two streams of one connection share the writer. Stream 1 leaves something buffered
+// (a RawWrite, or sends under SetManualFlush) and is ended by the peer; stream 2 is made afterwards, as
+// a connection does, and sends. Nothing of stream 1 may be emitted after its termination: the wire must
+// carry stream 2's frames only.
+func sharedWriter(id string, how string, end string) runner.Result {
+	var sink lockedBuffer
+	wr := drpcwire.NewWriter(&sink, 1<<20)
+	st1 := drpcstream.NewWithOptions(context.Background(), 1, wr, drpcstream.Options{})
+	d := payload.Make(1, 0, 0, 1, 40)
+	var err error
+	switch how {
+	case "raw-write":
+		err = st1.RawWrite(drpcwire.KindMessage, d)
+	case "set-manual-flush":
+		st1.SetManualFlush(true)
+		err = st1.MsgSend(&d, payload.Enc{})
+		st1.SetManualFlush(false)
+	}
+	if err != nil {
+		return runner.Inconcl(id, "setup write failed: "+err.Error())
+	}
+	switch end {
+	case "remote-error":
+		st1.HandlePacket(drpcwire.Packet{ID: drpcwire.ID{Stream: 1, Message: 1}, Kind: drpcwire.KindError, Data: drpcwire.MarshalError(errors.New("remote failed"))})
+	case "remote-close":
+		st1.HandlePacket(drpcwire.Packet{ID: drpcwire.ID{Stream: 1, Message: 1}, Kind: drpcwire.KindClose})
+	case "remote-cancel":
+		st1.HandlePacket(drpcwire.Packet{ID: drpcwire.ID{Stream: 1, Message: 1}, Kind: drpcwire.KindCancel, Control: true})
+	case "local-cancel":
+		st1.Cancel(errCancel)
+	}
+	where := fmt.Sprintf("[stream 1: %s left unflushed, then %s; stream 2 made on the same writer sends one message]", how, end)
+	select {
+	case <-st1.Finished():
+	default:
+		return runner.Violation(id, "state-machine:shared-writer-first-stream-not-finished", where+": stream 1 is terminated with nothing in flight but not finished")
+	}
+	before := sink.Len()
+	st2 := drpcstream.NewWithOptions(context.Background(), 2, wr, drpcstream.Options{})
+	d2 := payload.Make(2, 0, 0, 1, 10)
+	if err := st2.MsgSend(&d2, payload.Enc{}); err != nil {
+		return runner.Inconcl(id, "stream 2 send failed: "+err.Error())
+	}
+	st2.Close()
+	sink.mu.Lock()
+	wire := append([]byte(nil), sink.b.Bytes()[before:]...)
+	sink.mu.Unlock()
+	var fails []string
+	for len(wire) > 0 {
+		rem, fr, ok, perr := drpcwire.ParseFrame(wire)
+		if !ok || perr != nil {
+			fails = append(fails, where+": the bytes written after stream 1 ended are not whole frames")
+			break
+		}
+		if fr.ID.Stream != 2 {
+			fails = append(fails, fmt.Sprintf("%s: a frame of stream %d (kind %v, %d bytes) was emitted after that stream had terminated", where, fr.ID.Stream, fr.Kind, len(fr.Data)))
+			break
+		}
+		wire = rem
+	}
+	if len(fails) > 0 {
+		return runner.Violation(id, "state-machine:emitted-after-termination-through-the-shared-writer", strings.Join(fails, "\n"))
+	}
+	res := runner.Hold(id, where, true)
+	res.Events = 3
+	return res
+}
+
+// parentContext: the context a stream is made from ends (cancel or deadline) without the stream being
+// told. The stream is still open: its own context must not report an error before the stream has
+// finished, and must report exactly context.Canceled once it has.
+func parentContext(id string, deadline bool) runner.Result {
+	var sink lockedBuffer
+	wr := drpcwire.NewWriter(&sink, 1)
+	parent, cancel := context.WithCancel(context.Background())
+	if deadline {
+		parent, cancel = context.WithDeadline(context.Background(), time.Now().Add(-time.Second))
+	}
+	defer cancel()
+	st := drpcstream.NewWithOptions(parent, streamID, wr, drpcstream.Options{})
+	cancel()
+	where := fmt.Sprintf("[parent context ended (deadline=%v), stream not told]", deadline)
+	var fails []string
+	check := func(step string, wantFin bool) {
+		fin := false
+		select {
+		case <-st.Finished():
+			fin = true
+		default:
+		}
+		done := false
+		select {
+		case <-st.Context().Done():
+			done = true
+		default:
+		}
+		cerr := st.Context().Err()
+		if fin != wantFin {
+			fails = append(fails, fmt.Sprintf("%s %s: finished=%v, want %v", where, step, fin, wantFin))
+		}
+		if done != fin || (cerr != nil) != fin || (fin && !errors.Is(cerr, context.Canceled)) {
+			fails = append(fails, fmt.Sprintf("%s %s: Context().Done() closed=%v, Context().Err()=%v while finished=%v (the context is done, with context.Canceled, exactly when the stream is finished)", where, step, done, cerr, fin))
+		}
+	}
+	check("after the parent ended", false)
+	d := payload.Make(1, 0, 0, 1, 10)
+	if err := st.MsgSend(&d, payload.Enc{}); err != nil {
+		fails = append(fails, where+": a send on the open stream failed: "+err.Error())
+	}
+	check("after a send", false)
+	st.CloseSend()
+	check("after CloseSend", false)
+	st.Cancel(errCancel)
+	check("after Cancel", true)
+	if len(fails) > 0 {
+		return runner.Violation(id, "state-machine:context-error-before-finished", strings.Join(fails, "\n"))
+	}
+	res := runner.Hold(id, where, true)
+	res.Events = 4
+	return res
+}
+
 // blockFailEnc is an encoding whose Marshal waits for a signal and then rejects the message.
 type blockFailEnc struct {
 	entered chan struct{}
@@ -1353,6 +1476,18 @@ func gen(tier string, seed uint64) []runner.Scenario {
 				}
 			}
 		}
+	}
+	for _, how := range []string{"raw-write", "set-manual-flush"} {
+		for _, end := range []string{"remote-error", "remote-close", "remote-cancel", "local-cancel"} {
+			how, end := how, end
+			id := fmt.Sprintf("shared-writer/%s/%s", how, end)
+			out = append(out, runner.Scenario{ID: id, Run: func() runner.Result { return sharedWriter(id, how, end) }})
+		}
+	}
+	for _, deadline := range []bool{false, true} {
+		deadline := deadline
+		id := fmt.Sprintf("parent-context/deadline=%v", deadline)
+		out = append(out, runner.Scenario{ID: id, Run: func() runner.Result { return parentContext(id, deadline) }})
 	}
 	for _, manual := range []bool{false, true} {
 		manual := manual
